@@ -41,7 +41,8 @@ RULE = ("a case is one history of 1-300 decoded records from 1-6 aircraft (DF17 
 ASSUMPTIONS = [
     "positions are pre-decoded in the driver by the real decode_position with a fixed receiver reference, as main() does before "
     "updating the table",
-    "timestamps are non-decreasing within a history, so 'first' and 'latest' record are unambiguous; first/last seen are whole seconds",
+    "'first' and 'latest' record of an aircraft are positions in the history (arrival order), as in the code the property was read from; one "
+    "record in ten carries a timestamp up to 3 s older than its predecessor's; first/last seen are whole seconds",
     "an entry field may legitimately be null, keep an older value of the same aircraft, or be cleared: only non-null values are traced "
     "back to the aircraft's own records (under the JSON keys that report the same quantity)",
     "the aircraft database is empty (registration/typecode come from the address alone and are compared alone-vs-interleaved only)",
